@@ -317,12 +317,19 @@ class Ref:
                 sql += " " + " ".join(js)
             if s.get("where") is not None:
                 sql += " WHERE " + self.item(s["where"])
+            def key(it):
+                # an integer literal as GROUP BY / ORDER BY key is SQL's positional reference to a result column
+                if it[0] == "t" and it[1][0] == "vali" and 1 <= int(it[1][1]) <= len(s["selects"]):
+                    tgt = s["selects"][int(it[1][1]) - 1]
+                    if not (tgt[0] == "t" and tgt[1][0] == "star"):
+                        return self.item(tgt)
+                return self.item(it)
             if s.get("groupby"):
-                sql += " GROUP BY " + ", ".join("(%s)" % self.item(self.strip_alias(g)) for g in s["groupby"])
+                sql += " GROUP BY " + ", ".join("(%s)" % key(g) for g in s["groupby"])
             if s.get("having") is not None:
                 sql += " HAVING " + self.item(s["having"])
             if s.get("orderby"):
-                sql += " ORDER BY " + ", ".join("(%s) %s" % (self.item(self.strip_alias(o)), "DESC" if d == "desc" else "ASC")
+                sql += " ORDER BY " + ", ".join("(%s) %s" % (key(o), "DESC" if d == "desc" else "ASC")
                                                 for o, d in s["orderby"])
             lim, off = s.get("limit"), s.get("offset")
             if lim is not None or off:
